@@ -35,6 +35,7 @@ type nyctRecord struct {
 	Res      rt.Res          `json:"res"`
 	PlainErr string          `json:"plainErr"`
 	Plain    rt.Res          `json:"plain"`
+	Perms    abs.Seq[rt.Run] `json:"perms"` // every other entity order, with the extension (messages of 2-3 entities)
 }
 
 type originObs struct {
@@ -134,7 +135,14 @@ func nycttripsDriver(args []string) (*Summary, error) {
 					s.Crashes = append(s.Crashes, map[string]string{"case": id, "what": "ParseRealtime " + e})
 				}
 			}
-			w.Write(nyctRecord{"msg", id, c.Msg, *c.Opts, with.Err, with.Res, without.Err, without.Res})
+			rec := nyctRecord{"msg", id, c.Msg, *c.Opts, with.Err, with.Res, without.Err, without.Res, nil}
+			if len(msg.Ents) >= 2 && len(msg.Ents) <= 3 {
+				for _, o := range rt.Permutations(len(msg.Ents))[1:] {
+					e2 := nycttrips.Extension(nycttrips.ExtensionOpts{FilterStaleUnassignedTrips: c.Opts.FilterStale, PreserveMTrainPlatformsInBushwick: c.Opts.PreserveM})
+					rec.Perms = append(rec.Perms, rt.ParseOnce(msg, o, "nil", e2))
+				}
+			}
+			w.Write(rec)
 			s.Cases++
 			s.Counters["messages"]++
 			if len(s.Samples) < 3 && n%97 == 5 {
